@@ -68,6 +68,10 @@ func main() {
 		config.GetDefaultParams().CheckRewardHeight, config.GetDefaultParams().DPoSV2StartHeight,
 		config.GetDefaultParams().TestNet().CheckRewardHeight, config.GetDefaultParams().TestNet().DPoSV2StartHeight,
 		config.GetDefaultParams().RegNet().CheckRewardHeight, config.GetDefaultParams().RegNet().DPoSV2StartHeight)
+	// the binary64 values the compiler gives the share literals (Lemmas/FloatModel.lean: c30, c35)
+	ex.DefNat("bits030", math.Float64bits(0.3))
+	ex.DefNat("bits035", math.Float64bits(0.35))
+	ex.DefNat("bits025", math.Float64bits(0.25))
 	ex.DefStr("dposRewardExpr", bv.Src(bv.MustFunc("BlockChain.GetBlockDPOSReward").Body))
 	ex.Footer("C11")
 }
